@@ -6,6 +6,7 @@ CONSTANTS
   EmitEdges = FALSE
   TestDefaultOn = TRUE
   Lite = FALSE
+  EmitOneIn = 1
 VIEW View
 INVARIANTS TypeOK SelValid HeapExact RegSound
 PROPERTIES Isolation PrecIndependent SelSticky SelMoves EvalPure FatalIntact FatalOnlyIfMisuse NoUseBeforeInit ReinitFresh SetThenGet
